@@ -58,11 +58,11 @@ CLAIMED = {
     'C11': ('5/C11, 3.3',
             'WindowDiag in spec/Ioapi.tla states the referencing rule (origin + first index x cell, matching sub-range of level edges, same sub-range of decoded times, start flags of the first retained time, unchanged step); spec/Ioapi_Trace.tla evaluates it for every slice step that is a contiguous window (integers incl. negative, unit-stride slices with any start/stop, alone or combined over ROW, COL, LAY, TSTEP) in seeded random programs over I1-I5 (windows crossing midnight, year end, leap day; 1 h, 30 min and 24 h steps).',
             'Trusted: metadata projection; getTimes() of source and window are both logged and compared by TLC (their correctness as instants is C12). Origins/cell sizes are integers and VGLVLS multiples of 0.001 so that float arithmetic is exact. Lat/lon of cell centres (pyproj) out of reach.',
-            'window traces validated against the referencing rule'),
+            'bounded wrapper model (WindowKeeps) + window traces validated against the referencing rule'),
     'C10': ('5/C10, 3.3',
             'spec/Ioapi.tla defines Coherent (the conjunction the property lists) on the projected metadata block; spec/Ioapi_Trace.tla requires it after every call of seeded random programs (depth 1-3: copy, slice incl. windows, subset, rename, apply over TSTEP/LAY/ROW/COL, eval, mask, stack, interpSigma linear/conserve) over IOAPI templates I1-I5 (gridded, boundary, 24-hour step, leap-day start with 30-minute step, file read from disk) whenever every input was coherent; also well-formedness and TSTEP unlimited.',
-            'Trusted: the metadata projection (harness/ioapi_driver.py meta_of: integer attributes, VAR-LIST split in 16-character fields). Not demanded: results with NVARS=0 or an empty time axis, zipped selections (they replace the standard dimensions), operations outside the property list (renameDimension, insertDimension, removeSingleton). No bounded design model of the wrappers yet: model-level states come from trace validation only.',
-            'IOAPI program traces validated against Coherent'),
+            'Trusted: the metadata projection (harness/ioapi_driver.py meta_of: integer attributes, VAR-LIST split in 16-character fields). Not demanded: results with NVARS=0 or an empty time axis, zipped selections (they replace the standard dimensions), operations outside the property list (renameDimension, insertDimension, removeSingleton). spec/Ioapi_MC.tla is the bounded design model of the wrappers (structural file + metadata block, every operation = core effect + the wrapper's metadata rule): TLC checks Inv_Coherent, Inv_WellFormed and the action property WindowKeeps over all programs of depth 2 (quick) / 3 (thorough), shows for each wrapper that dropping its rule is detected, and emits every program for replay.',
+            'bounded wrapper model (Inv_Coherent, sharpness per wrapper) + IOAPI program traces validated'),
     'C06': ('5/C06, 3.1',
             'Exp_arith (13 operators, masked operands, division by zero -> masked, coordinate pass-through), Exp_eval (expression grammar var/int/binary/where) and Exp_mask (predicate combinations, where with/without dims, coords flag) are evaluated by TLC in exact rationals on every arith/eval/mask step and compared with the logged result.',
             'Trusted: TLC/SANY, the projection (harness/project.py: integers, rationals with denominator <= 100, hex otherwise), the argument conversion in harness/core_driver.py. Values are exact rationals; cells whose exact value cannot be identified from the float (denominator > 100, float32 magnitude > 2000, float32 variance, 32-bit overflow guards Dec_*) are not decided. Plotting, projections (pyproj missing) and xarray export are out of reach.',
